@@ -168,6 +168,7 @@ class Log:
                 d["allocs"] = int(d.get("allocs", 0))
                 d["peerlist"] = []
                 d["elems"] = []
+                d["internals"] = d.pop("internals", "1") == "1"   # 0: the harness could not read the daemon's structures (see simk.py)
                 d["step"] = step
                 if k == "SNAP":
                     self.snaps.append(d)
